@@ -14,6 +14,8 @@
 (*         direct path one step, rotated path Inner / TurnTheta / TurnPhi / Finish  *)
 (*  box  : corner deviates of a lon/lat box                                         *)
 (*  gen  : two seeded generators drawing in any interleaving                        *)
+(*  wld  : world machine - two Generator objects of twin densities on one grid built and     *)
+(*         sampled in any interleaving, caller scribbling over results; a memo of tables       *)
 (*  law  : the summary / block / sorting laws that decide large draws, checked on   *)
 (*         every small sequence;  scale : the large cases themselves (export only)  *)
 EXTENDS Sampler, Json, SequencesExt
@@ -24,6 +26,9 @@ CONSTANTS XVals, MaxNodes, PVals, UDen,     \* smp: abscissae, node count 2..Max
           SmpKinds,                         \* {"density", "cumulative"}
           LDiag, LOffP, LOffShift, CholMaxN, CholNs, ZSels,   \* chol: diagonal, off-diagonal (+shift), npar, n
           Transposed,                       \* chol mechanism: FALSE = code (M r), TRUE = M^T r variant
+          DiagTol, CholScaleKs,             \* chol scale law: absolute tolerance of a 'diagonal fast path' (0 = code), integer scales
+          WldGrids, WldPVals, WldForms, WldMaxCalls,   \* wld: common grids (bit masks of abscissae 0..7), density values, hand-over forms, sample calls per session
+          MemoKey,                          \* wld mechanism: "none" (code) | "full" | "func_only" (Sampler.tla section 8)
           IdxMax,                           \* idx: imax 0..IdxMax, n 0..IdxMax+1
           CapLonCodes, CapLatCodes, CapRadCodes,   \* cap: eps-angles coded a*16+(b+8), latitude a shifted by 90
           FixedRadius,                      \* cap mechanism: TRUE = radii converted once (repaired code)
@@ -137,6 +142,8 @@ CholTheorems == (fam = "chol" /\ ph = "case") =>
     /\ LET zv == SubSeq(c.pool, 1, CholN(c.L))
            s  == CholApply(c.mean, c.L, zv)
        IN CholSolve(c.mean, c.L, [i \in DOMAIN s |-> RInt(s[i])]) = [i \in DOMAIN zv |-> RInt(zv[i])]
+\* scale covariance of factor and samples (Sampler.tla 2: class M), for every enumerated factor
+CholScaleLaw == (fam = "chol" /\ ph = "case") => \A k \in CholScaleKs : CholThmScale(c, k, DiagTol)
 CholObs(s, z) == [entry |-> "class", err |-> "none", shape |-> <<Len(s), Len(s[1])>>, drawn |-> z,
                   s |-> [j \in DOMAIN s |-> [i \in DOMAIN s[j] |-> [k |-> "rat", n |-> s[j][i], d |-> 1]]]]
 CholMechRefines == (fam = "chol" /\ ph = "done") => CholFailing(c, CholObs(m.s, m.z)) = {}
@@ -257,6 +264,69 @@ GenReproducible == fam = "gen" =>
     LET n == VMin2(Len(m.o1), Len(m.o2))
     IN \A i \in 1..n : (m.o1[i] = m.o2[i]) <=> (m.g1.seed = m.g2.seed)
 
+\* =================================================================================== wld
+\* world machine (Sampler.tla section 8): two objects of twin densities pa # pb on one grid
+WldLess(pa, pb) == \E i \in DOMAIN pa : pa[i] < pb[i] /\ \A j \in 1..(i - 1) : pa[j] = pb[j]
+WldUs(ta, tb) == SetToSortSeq({RNorm(j, 4) : j \in 0..4} \cup {ta.cs[k] : k \in 1..SmpTN(ta)} \cup {tb.cs[k] : k \in 1..SmpTN(tb)},
+                              LAMBDA a, b : RLt(a, b))
+\* the sessions replayed into the real code (designed to collide: the twin is built right after / before
+\* its sibling, each object is sampled again after the other one was built and after the caller
+\* scribbled over the arrays it got back); the machine below explores every interleaving
+WldScheds == {<<"B1", "S1", "B2", "S2", "S1", "X2", "S2", "X1", "S1">>,
+              <<"B2", "B1", "S1", "X1", "S2", "S1", "X2", "S2">>}
+WldGridOf(code) == VSortSet({i \in 0..7 : (code \div (2 ^ i)) % 2 = 1})      \* the grid as a bit mask of abscissae
+WldChoose ==
+    /\ fam = "start" /\ "wld" \in Families
+    /\ \E x \in {WldGridOf(g) : g \in WldGrids} : \E kind \in SmpKinds : \E pa, pb \in [1..Len(x) -> WldPVals] :
+          LET qa == IF kind = "density" THEN pa ELSE [k \in DOMAIN pa |-> SmpRunSum(pa, k)]
+              qb == IF kind = "density" THEN pb ELSE [k \in DOMAIN pb |-> SmpRunSum(pb, k)]
+              ca == [kind |-> kind, x |-> x, p |-> qa]
+              cb == [kind |-> kind, x |-> x, p |-> qb]
+          IN IF WldLess(pa, pb) /\ SmpValid(ca) /\ SmpValid(cb)
+             THEN c' = [kind |-> kind, x |-> x, pa |-> qa, pb |-> qb, us |-> WldUs(SmpTable(ca, 0), SmpTable(cb, 0))]
+             ELSE FALSE
+    /\ fam' = "wld" /\ ph' = "pair"
+    /\ m' = [memo |-> <<>>, built |-> <<FALSE, FALSE>>, tab |-> <<None, None>>, log |-> <<>>, res |-> <<"none", "none">>]
+WldChooseForm ==       \* how the densities are handed over + the session (export)
+    /\ fam = "wld" /\ ph = "pair"
+    /\ \E f \in WldForms : \E sc \in WldScheds :
+          c' = [kind |-> c.kind, x |-> c.x, pa |-> c.pa, pb |-> c.pb, us |-> c.us, form |-> f, sched |-> sc]
+    /\ ph' = "case" /\ UNCHANGED <<fam, m>>
+WldFresh(k) == SmpDedup(SmpTable([kind |-> c.kind, x |-> c.x, p |-> WldDens(c, k)], 0), "lead_last")
+WldMemoHits(key) == {i \in DOMAIN m.memo : m.memo[i].key = key}
+WldBuild(k) ==
+    /\ fam = "wld" /\ ph \in {"pair", "run"} /\ ~m.built[k]
+    /\ LET key  == WldKey("f", c.kind, c.x, WldDens(c, k), MemoKey)
+           hits == IF MemoKey = "none" THEN {} ELSE WldMemoHits(key)
+           t    == IF hits = {} THEN WldFresh(k) ELSE m.memo[CHOOSE i \in hits : TRUE].t
+       IN m' = [m EXCEPT !.built[k] = TRUE, !.tab[k] = t,
+                         !.memo = IF MemoKey = "none" \/ hits # {} THEN @ ELSE Append(@, [key |-> key, t |-> t])]
+    /\ ph' = "run" /\ UNCHANGED <<fam, c>>
+WldBuild1 == WldBuild(1)
+WldBuild2 == WldBuild(2)
+WldSample(k) ==
+    /\ fam = "wld" /\ ph = "run" /\ m.built[k] /\ Len(m.log) < WldMaxCalls
+    /\ LET t == m.tab[k] IN
+       m' = [m EXCEPT !.log = Append(@, [k |-> k, r |-> [q \in DOMAIN c.us |->
+                                            SmpMechEval(t, c.us[q], SmpClamp(t, SmpSearch(t, c.us[q]) - 1))]]),
+                      !.res[k] = "fresh"]
+    /\ UNCHANGED <<fam, ph, c>>
+WldSample1 == WldSample(1)
+WldSample2 == WldSample(2)
+WldScribble ==         \* the caller overwrites an array it was handed: a stutter step of the objects
+    /\ fam = "wld" /\ ph = "run"
+    /\ \E k \in 1..2 : m.res[k] = "fresh" /\ m' = [m EXCEPT !.res[k] = "scribbled"]
+    /\ UNCHANGED <<fam, ph, c>>
+\* every call's outcome = the outcome in a fresh world
+WldFreshWorld == (fam = "wld" /\ ph = "run" /\ m.log # <<>>) =>
+    LET e == m.log[Len(m.log)]
+        t == SmpTable([kind |-> c.kind, x |-> c.x, p |-> WldDens(c, e.k)], 0)
+    IN \A q \in DOMAIN c.us : SmpConstrained(t, c.us[q]) => (IsOk(e.r[q]) /\ e.r[q].val \in SmpVals(t, c.us[q]))
+WldTheorems == (fam = "wld" /\ ph = "case") =>
+    /\ WldLegal(c.sched) /\ c.pa # c.pb
+    /\ SmpValid(WldCase(c, 1)) /\ SmpValid(WldCase(c, 2))
+    /\ Cardinality({i \in DOMAIN c.sched : WldIsSample(c.sched[i])}) >= 4
+
 \* =================================================================================== law
 \* the laws that let summaries of large draws be judged (Sampler.tla section 7), on the small scope
 LawIdx ==
@@ -316,9 +386,11 @@ Next == \/ SmpChooseGrid \/ SmpChooseDens \/ SmpMechSearch \/ SmpMechEvalStep
         \/ CapTurnPhi \/ CapFinish
         \/ BoxChooseLon \/ BoxChooseLat \/ BoxDrawCorner
         \/ GenStart \/ GenCall1 \/ GenCall2
+        \/ WldChoose \/ WldChooseForm \/ WldBuild1 \/ WldBuild2 \/ WldSample1 \/ WldSample2 \/ WldScribble
         \/ LawIdx \/ LawPtsLen \/ LawPts \/ LawMonoLen \/ LawMono \/ ScaleChoose
 NextExport == \/ SmpChooseGrid \/ SmpChooseDens \/ CholChooseN \/ CholChooseL \/ IdxChoose
               \/ CapChooseCentre \/ CapChooseRad \/ BoxChooseLon \/ BoxChooseLat \/ ScaleChoose
+              \/ WldChoose \/ WldChooseForm
 Spec == Init /\ [][Next]_vars
 
 Export == (DoExport /\ ph = "case") =>
@@ -328,5 +400,6 @@ Export == (DoExport /\ ph = "case") =>
       [] fam = "cap"  -> PrintT(<<"CAP", ToJson(c)>>)
       [] fam = "box"  -> PrintT(<<"BOX", ToJson(c)>>)
       [] fam = "scale" -> PrintT(<<"SCALE", ToJson(c)>>)
+      [] fam = "wld"  -> PrintT(<<"WLD", ToJson(c)>>)
       [] OTHER -> TRUE
 =============================================================================
